@@ -439,6 +439,20 @@ func runExplore(b *built, prop string, p part, tier string, fds []finding, known
 			if divErr != nil {
 				continue
 			}
+			if f.Viol[0].Class == "S" || f.Viol[0].Class == "PANIC" {
+				// A wrong output or a panic of the code under test was observed, from the real code; that the same
+				// decision list does not produce it again in a fresh worker means something outside the explorer's
+				// control takes part (map iteration order, a sync.Pool, state kept across executions in one
+				// process). It is reported, marked as such; liveness / latency verdicts are not (they depend on the
+				// schedule having been what the explorer thinks it was).
+				for _, v := range f.Viol {
+					if v.Class == "S" || v.Class == "PANIC" {
+						viols = append(viols, violation{Part: p.Name, Scen: f.Scen, Params: f.Params.Key(), Class: v.Class,
+							Msg: v.Msg + " [observed during the exploration; 2 replays in fresh workers did not reproduce it: nondeterminism outside the explorer's control is involved]", Replay: f})
+					}
+				}
+				continue
+			}
 			return rep, nil, nil, fmt.Errorf("NONDETERMINISM: violation %q of %s %v not reproduced on replay", f.Viol[0].Msg, f.Scen, f.Choices)
 		}
 		for _, v := range r1.Viol {
